@@ -99,7 +99,7 @@ def gen_configs(rng, tier):
         method = rng.choice(["achr", "optgp"])
         api = rng.choice(["sample", "object", "object"])
         cfg = {"method": method, "api": api, "n": rng.choice([1, 2, 3, 7, 10, 17, 25] if tier == "quick"
-                                                             else [1, 2, 5, 20, 50, 100, 200]),
+                                                             else [1, 2, 5, 20, 50, 100]),
                "thinning": rng.choice([1, 2, 5, 10, 25]), "seed": rng.randrange(1, 2 ** 31),
                "processes": rng.choice([1, 1, 1, 2]) if method == "optgp" else 1,
                "fluxes": True if api == "sample" else rng.random() < 0.55,
@@ -526,7 +526,7 @@ def evaluate(instances, jobs=None):
         if t is not None:
             terms.append(t)
             idx.append(i)
-    res, faults = K.coq_eval_cases(HEADER, terms, "case", "failing", shard=60)
+    res, faults = K.coq_eval_cases(HEADER, terms, "case", "failing", shard=40, timeout=1500)
     for j, lst in res:
         i = idx[j]
         if [code for _, code in lst] == [0]:        # step case skipped as ill-conditioned (near a guard threshold)
